@@ -263,16 +263,21 @@ def main():
     m = importlib.import_module(modname)
     rnd = random.Random(seed)
     global CASES
-    if modname == "c06gen":
-        # the generated family: every function with every combination of (callee behaviour, flag)
+    if modname in ("c06gen", "c06def"):
+        # the generated / definedness families: every function with every combination of
+        # (callee behaviour, flag)
+        pre = "g" if modname == "c06gen" else "d"
         CASES = []
         i = 0
-        while hasattr(m, "g%d" % i):
+        while hasattr(m, "%s%d" % (pre, i)):
+            nm = "%s%d" % (pre, i)
             for fname, fobj in (("ok", ok), ("VE", VE), ("KE", KE)):
                 for c in (False, True):
-                    CASES.append(("g%d.%s.%d" % (i, fname, c), "g%d" % i, ("inst", "int"),
-                                  (lambda m, a, b, i=i, fobj=fobj, c=c: getattr(m, "g%d" % i)(a, b, fobj, c)), False))
+                    CASES.append(("%s.%s.%d" % (nm, fname, c), nm, ("inst", "int"),
+                                  (lambda m, a, b, nm=nm, fobj=fobj, c=c: getattr(m, nm)(a, b, fobj, c)), False))
             i += 1
+    import os
+    skip = set(json.loads(os.environ.get("C06_SKIP", "[]")))   # "case/kind" entries already run (or fatal) in an earlier child
     order = list(range(len(CASES)))
     rnd.shuffle(order)   # the seed only permutes the order of the cases
     for ci in order:
@@ -286,6 +291,8 @@ def main():
                 a, b = m.lit_tuple(), T(0)
             else:
                 a, b = KINDS[kind](1), KINDS[kind](2)
+            if "%s/%s" % (name, kind) in skip:
+                continue
             print("BEGIN %s/%s" % (name, kind), flush=True)
             outs, delta = measure(m, call, a, b, n)
             print("RESULT " + json.dumps({"case": name, "fn": fn, "kind": kind, "outs": outs,
